@@ -82,3 +82,85 @@ Definition explain (c : case) : list nat :=
   map (fun i => match place (q_d c) (with_flag (q_fx c) i) (q_prog c) with
                 | inl DCrash => 0 | inl _ => 1 | inr _ => 0 end) [0; 1; 2; 3].
 Definition explains (l : list case) : list (list nat) := map explain l.
+
+(* ================================================================== (misc triage 4a/4b) declaration sequences: Model/DeclNames.v
+   A generated program is a sequence of source-level events, one per line: a declaration (kind, enclosing classes, name as
+   spelled) or a caller function (enclosing classes, spelling of the callee, possibly `this.`-relative).  Names are turned
+   into paths by Model/ResLoc.v's `convention` (fail closed: a name the model cannot convert is a mismatch). *)
+From JMCV Require Import Model.DeclNames.
+
+Inductive sevent :=
+| SDecl (k : dkind) (classes : list string) (name : string)
+| SCall (classes : list string) (spelling : string).
+
+Fixpoint sprefix (strict : bool) (classes : list string) : option string :=
+  match classes with
+  | [] => Some ""
+  | c :: r => match convention strict true "" c, sprefix strict r with
+              | inr p, Some q => Some (p ++ "/" ++ q)
+              | _, _ => None
+              end
+  end.
+Definition to_event (strict : bool) (e : sevent) : option event :=
+  match e with
+  | SDecl k cl n => match sprefix strict cl, convention strict true "" n with
+                    | Some pre, inr p => Some (Decl k (pre ++ p))
+                    | _, _ => None
+                    end
+  | SCall cl sp => match sprefix strict cl with
+                   | Some pre => match convention strict true pre sp with inr p => Some (Call p) | inl _ => None end
+                   | None => None
+                   end
+  end.
+Fixpoint to_events (strict : bool) (l : list sevent) : option (list event) :=
+  match l with
+  | [] => Some []
+  | e :: r => match to_event strict e, to_events strict r with Some x, Some y => Some (x :: y) | _, _ => None end
+  end.
+
+(* what the real compiler did *)
+Inductive dreal :=
+| XDup (i : nat) (path : string)      (* JMCSyntaxException "Duplicate function declaration(<path>)" pointing at the line of event i *)
+| XUndef (lazy : bool)                (* JMCValueError "… was never defined" (false) / JMCSyntaxException "Lazy function … used before definition" (true) *)
+| XOk (files : list (string * nat))   (* function file (path below the function folder) -> index of the declaration whose marker it holds *)
+      (calls : list (nat * string * resolution))   (* caller j: the marker of template i was expanded in it (path "") / `function <ns>:<path>` *)
+| XOther.
+
+Record dcase := mkDCase { dq_fixed : bool; dq_strict : bool; dq_evs : list sevent; dq_real : dreal }.
+
+Definition res_eqb (a b : resolution) : bool :=
+  match a, b with RExpand i, RExpand j => Nat.eqb i j | RFile, RFile => true | _, _ => false end.
+Definition call_eqb (m r : nat * string * resolution) : bool :=
+  match m, r with
+  | (j, p, RExpand i), (j', _, RExpand i') => Nat.eqb j j' && Nat.eqb i i'
+  | (j, p, RFile), (j', p', RFile) => Nat.eqb j j' && String.eqb p p'
+  | _, _ => false
+  end.
+Fixpoint calls_eqb (m r : list (nat * string * resolution)) : bool :=
+  match m, r with
+  | [], [] => true
+  | x :: m', y :: r' => call_eqb x y && calls_eqb m' r'
+  | _, _ => false
+  end.
+Definition entry_eqb (a b : string * nat) : bool := String.eqb (fst a) (fst b) && Nat.eqb (snd a) (snd b).
+Definition entries_eqb (a b : list (string * nat)) : bool :=
+  forallb (fun x => existsb (entry_eqb x) b) a && forallb (fun x => existsb (entry_eqb x) a) b &&
+  Nat.eqb (List.length a) (List.length b).
+Definition path_at (evs : list event) (i : nat) : string :=
+  match nth_error evs i with Some (Decl _ p) => p | _ => "<no declaration>" end.
+
+(* 0 agree; 1 verdict differs; 2 another declaration / path cited; 3 the function files differ from `functions`;
+   4 a call site resolves differently; 5 a name the model cannot convert *)
+Definition dcase_code (c : dcase) : nat :=
+  match to_events (dq_strict c) (dq_evs c) with
+  | None => 5
+  | Some evs =>
+      match compile (dq_fixed c) evs, dq_real c with
+      | VDup i, XDup i' p => if Nat.eqb i i' && String.eqb (path_at evs i) p then 0 else 2
+      | VUndefined b, XUndef b' => if Bool.eqb b b' then 0 else 1
+      | VOk t cs, XOk files calls =>
+          if negb (entries_eqb (t_funs t) files) then 3 else if calls_eqb cs calls then 0 else 4
+      | _, _ => 1
+      end
+  end.
+Definition dcodes (l : list dcase) : list nat := map dcase_code l.
